@@ -20,6 +20,7 @@ const (
 	cForInStr
 	cBlock
 	cElseIf // if / else if / else if / else with traced conditions
+	cDangle // if (c1) if (c2) { body } else { e }  - no braces around the inner if: the else is the inner if's
 	nConstructs
 )
 
@@ -115,6 +116,9 @@ func (n *c07Node) render() string {
 		return "if (t('" + n.cname + "', $." + n.cname + ")) { " + body + " } print 'z" + n.id + "'; "
 	case cIfElse:
 		return "if (t('" + n.cname + "', $." + n.cname + ")) { " + body + " } else { print 'e" + n.id + "' } print 'z" + n.id + "'; "
+	case cDangle:
+		c := n.chain
+		return "if (t('" + c[0] + "', $." + c[0] + ")) if (t('" + c[1] + "', $." + c[1] + ")) { " + body + " } else { print 'e" + n.id + "' } print 'z" + n.id + "'; "
 	case cElseIf:
 		c := n.chain
 		return "if (t('" + c[0] + "', $." + c[0] + ")) { print 'first" + n.id + "' } else if (t('" + c[1] + "', $." + c[1] + ")) { " + body +
@@ -194,6 +198,18 @@ func (n *c07Node) exec(c *c07Ctx) int {
 		if n.cval {
 			if s := n.body(c); s != sigNone {
 				return s
+			}
+		}
+	case cDangle:
+		c.out += n.chain[0] + "\n"
+		if n.chainv[0] {
+			c.out += n.chain[1] + "\n"
+			if n.chainv[1] {
+				if s := n.body(c); s != sigNone {
+					return s
+				}
+			} else {
+				c.out += "e" + n.id + "\n"
 			}
 		}
 	case cElseIf:
@@ -276,7 +292,7 @@ func c07Build(c *c07Ctx, depth int, level int, name string) *c07Node {
 	c.nvar++
 	n.loopv = "v" + itoa(c.nvar)
 	switch n.kind {
-	case cElseIf:
+	case cElseIf, cDangle:
 		for i := range n.chain {
 			n.chain[i], n.chainv[i] = c.cond()
 		}
@@ -322,7 +338,8 @@ func VHC07Nesting() {
 	root := c07Build(c, depth, 1, "k")
 	in := root.innermost()
 	in.jump = vh.Choose("jump", nJumps)
-	c.inFn = vh.Choose("infn", 2) == 1
+	ctx := vh.Choose("infn", 4) // 0 a pattern rule, 1 a function called from it, 2 an ENDFILE rule, 3 a BEGINFILE rule
+	c.inFn = ctx == 1
 	if in.jump != jNone {
 		in.jname, in.jval = c.cond()
 	}
@@ -336,6 +353,32 @@ func VHC07Nesting() {
 	}
 	text := root.render()
 	var prog string
+	if ctx >= 2 {
+		// the construct sits in a BEGINFILE / ENDFILE rule of a stream of two values: next
+		// ends that rule only, exit ends the whole run (no further rule, value or END)
+		kw := []string{"ENDFILE", "BEGINFILE"}[ctx-2]
+		prog = c07Traced + kw + " { print 's'; " + text + "print 't' }\n" + kw + " { print 'second rule' }\nEND { print 'end' }"
+		got, k := runProg(prog, c.doc, c.doc)
+		c.out = ""
+		for v := 0; v < 2; v++ {
+			c.out += "s\n"
+			sig := root.exec(c)
+			if sig == sigExit {
+				break
+			}
+			if sig == sigNone {
+				c.out += "t\n"
+			}
+			c.out += "second rule\n"
+			if v == 1 {
+				c.out += "end\n"
+			}
+		}
+		vh.Reach("program evaluated")
+		vh.Assert(k == OK, "C07: a structured program runs without error")
+		vh.Assert(got == c.out, "C07: statements execute in the documented order (in a "+kw+" rule)")
+		return
+	}
 	if c.inFn {
 		prog = c07Traced + "function f() { print 'f'; " + text + "print 'g'; return 1 }\n{ print 's'; r = f(); print 't', r }\n{ print 'second rule' }\nEND { print 'end' }"
 	} else {
